@@ -277,15 +277,29 @@ def check_file(case, ctx: Ctx) -> None:
         data = cb.Angle(arc.theta, arc.k * case["axis_scale"])
     else:
         data = cb.Origin(arc.c)
-    op = cb.Loft(cb.Face(bottom, [data, None, None, None]), cb.Face([p + h for p in bottom]))
+    # the arc sits on any of the 12 edge positions of the operation, declared in that position's own sense: the block
+    # is renumbered by the rotation of the hexahedron that takes the directed edge 0->1 to that position
+    from vf.refmodel import hex_rotations
+
+    pos_corners = [(0, 1), (1, 2), (2, 3), (3, 0), (4, 5), (5, 6), (6, 7), (7, 4), (0, 4), (1, 5), (2, 6), (3, 7)]
+    position = case.get("position", 0)
+    c1, c2 = pos_corners[position]
+    perm = [r for r in hex_rotations() if r[c1] == 0 and r[c2] == 1][0]
+    base = bottom + [p + h for p in bottom]
+    Q = [base[perm[i]] for i in range(8)]
+    op = cb.Loft(cb.Face(Q[:4], [data if position == i else None for i in range(4)]),
+                 cb.Face(Q[4:], [data if position == i + 4 else None for i in range(4)]))
+    if position >= 8:
+        op.add_side_edge(position - 8, data)
+    facts["position"] = position
     for ax in range(3):
         op.chop(ax, count=1)
     mesh = cb.Mesh()
     mesh.add(op)
     judge_file(mesh, arc, facts)
-    if case.get("moves"):
-        moved = MovedArc(arc, case["moves"])
-        how = case.get("rewrite", "move-vertices")
+    how = case.get("rewrite", "move-vertices" if case.get("moves") else "none")
+    if how != "none":
+        moved = MovedArc(arc, case.get("moves") or [])  # no moves: the same model is assembled again
         facts = dict(facts, after_move=True, rewrite=how)
         if how == "clear-move-operation":
             # the assembly is thrown away, the operation itself is moved in place, the same Mesh is written again
@@ -293,10 +307,14 @@ def check_file(case, ctx: Ctx) -> None:
         else:
             # every mesh vertex moves rigidly (as an optimizer or a user would move them), edge data that holds points too
             must(lambda: moved.move(mesh.vertices, [e.data for e in mesh.edge_list.edges]), "moving the mesh vertices", facts)
-            if how == "move-vertices-backport":
+            if how in ("move-vertices-backport", "backport-twice"):
                 must(mesh.backport, "backport()", facts)
         judge_file(mesh, moved, facts)
-        ctx.label("rewritten:" + how)
+        if how == "backport-twice":
+            must(mesh.backport, "second backport()", facts)
+            judge_file(mesh, moved, dict(facts, assembly=3))
+        ctx.label("rewritten:" + how + ("" if case.get("moves") else "(unmoved)"))
+    ctx.label("position:%d" % position)
     label(case, arc, ctx)
 
 
@@ -388,7 +406,9 @@ def circle_case(draw, theta, **extra):
     for k, v in extra.items():
         case[k] = draw(v)
     case["moves"] = [draw(_move) for _ in range([0, 1, 1, 2][draw(st.integers(0, 3))])]
-    case["rewrite"] = draw(st.sampled_from(["move-vertices", "clear-move-operation", "move-vertices-backport"]))
+    case["rewrite"] = draw(st.sampled_from(["none", "move-vertices", "clear-move-operation", "move-vertices-backport",
+                                            "backport-twice"]))
+    case["position"] = (draw(st.integers(0, 11)) + 5 * draw(st.integers(0, 11))) % 12  # two draws: flatter histogram
     case["far"] = draw(st.sampled_from([0.0, 0.0, 1e3, 1e5, 2e6]))
     case["far_dir"] = draw(_general)
     return case
@@ -640,8 +660,8 @@ CELLS = [
          "R about 0.1, sector 0.05, point near the start: a proper arc that the library's absolute collinearity "
          "tolerance drops (new finding)"),
     Cell("C08/file/arc-line", circle_case(_theta(0.1, math.pi - 0.05), spec=st.sampled_from(["angle", "origin"])), check_file,
-         250, 8000, "one block with an angle/origin edge on its first edge: the single `arc a b (p)` line carries the analytic "
-         "middle (minor arcs: a block edge)"),
+         250, 8000, "one block with an angle/origin edge on any of its 12 edge positions: the single `arc a b (p)` line carries the "
+         "analytic middle (minor arcs: a block edge); then a drawn re-assembly / move history and the file again"),
     Cell("C08/file/arc-line-reflex", circle_case(_theta(math.pi + 0.05, 2 * math.pi - 0.05), spec=st.just("angle")), check_file,
          150, 5000, "the same for reflex angle/axis arcs"),
     Cell("C08/file/revolve", revolve_case(), check_revolve, 300, 10000,
